@@ -3,6 +3,8 @@ package props
 import (
 	"fmt"
 
+	"github.com/gregoryv/mq"
+
 	"verif/drv"
 	"verif/gen"
 	"verif/ref"
@@ -341,6 +343,20 @@ func runC12(c *sim.Ctx) *sim.Violation {
 			ops = append(ops[:j], append([]drv.Op{z}, ops[j:]...)...)
 			c.Count("probe.set-then-reset-pair")
 		}
+	}
+	if typ == ref.Subscribe && t.Bool(1, 2) {
+		// all AddFilters calls of this history take their arguments from one
+		// backing array (sub-slices with spare capacity), prepared in advance
+		arena := &drv.FilterArena{}
+		for i := range ops {
+			if ops[i].Kind == "filters" && t.Bool(1, 2) { // the other calls get fresh argument slices
+				for _, f := range ops[i].Fs {
+					arena.Buf = append(arena.Buf, mq.NewTopicFilter(string(f.Name), mq.Opt(f.Opts)))
+				}
+				ops[i].Arena = arena
+			}
+		}
+		c.Count("probe.AddFilters-arguments-are-sub-slices-of-one-array")
 	}
 	peek := t.Bool(1, 3)
 	p := drv.New(typ)
